@@ -15,7 +15,6 @@ compile=True/False, lookups interleaved or not) with depth <= 5 and hostile lite
 """
 
 import itertools
-import os
 
 from falcon.routing import CompiledRouter
 from falcon.routing.compiled import UnacceptableRouteError
@@ -395,6 +394,17 @@ CONV_REPS = {
     ('int', 'num_digits=2'): ['12', '1', '123', 'ab'],
     ('int', 'min=5, max=10'): ['5', '4', '10', '11'],
     ('int', '2, min=10, max=50'): ['10', '09', '50', '51'],
+    # bounds of zero (documented: reject below min / above max; the bounds themselves are allowed)
+    ('int', 'min=0'): ['0', '-1', '1', '-0', '+0'],
+    ('int', 'max=0'): ['0', '1', '-1', '-0', '+0'],
+    ('int', 'min=0, max=0'): ['0', '-1', '1', '+0', '-0'],
+    ('int', '2, min=0'): ['10', '-1', '00', '-0', '+5', '5'],
+    ('int', '2, min=0, max=0'): ['00', '-1', '+0', '-0', '01', '0'],
+    ('int', 'num_digits=2, max=0'): ['-1', '01', '00', '-0', '10', '1'],
+    ('float', 'min=0'): ['0', '-0.5', '-1', '1', '0.0', '-0', '+0'],
+    ('float', 'max=0.0'): ['0.0', '0.5', '1', '-0.5', '-0', '-1'],
+    ('float', 'min=-0.0'): ['0', '-0.5', '-0.0', '1', '-1'],
+    ('float', 'min=0, max=0'): ['0.0', '-0.5', '0.5', '-0', '1', '-1'],
     ('float', None): ['1.5', 'x', 'nan', '1e3'],
     ('float', 'min=1.5, max=2.5'): ['1.5', '1.4', '2.5', '2.6'],
     ('float', 'finite=False'): ['nan', 'x', '-inf', '1.0'],
@@ -612,7 +622,12 @@ def templates_over(shapes):
 SPECIALS = ['/a/{p:path}/b', '/a/b/{p:path}x', '/a/{x1}/b', '/a/b/c', '/{x0}/{x1}/{p:path}',
             '/{y0}-{w0}/{p:path}/c', '/a/{x1}/{r:rest}', '/ab/{z1:int(2)}/',
             '/{x0:int(min=5, max=10)}', '/{y0:int}.{w0}/{x1:float(min=1.5, max=2.5)}',
-            '/{y0:dt("%Y-%m-%d")}_{w0:uuid}_{u0}/{v1:veto}']
+            '/{y0:dt("%Y-%m-%d")}_{w0:uuid}_{u0}/{v1:veto}',
+            # zero bounds, alone and inside multi-field segments (a simple sibling from the pair vocabulary
+            # or '/r/{x1}' is the fall-through)
+            '/{x0:int(min=0)}', '/{x0:int(max=0)}', '/{x0:float(min=0, max=0)}', '/r/{x1}',
+            '/r/{y1:int(min=0)}to{w1:int(min=0)}', '/{y0:int(min=0, max=0)}to{w0:int(max=0)}',
+            '/{y0:float(min=0)}_{w0:float(max=0.0)}', '/r/{y1:float(min=-0.0)}to{w1:int(2, min=0, max=0)}']
 
 PAIR_SHAPES = {
     'quick': ['a', 'ab', 'x', 'xint', 'ay', 'y-w', 'path', 'pathx'],
@@ -675,6 +690,9 @@ LIT_TOKENS = ['a', 'b', 'ab', 'abc', 'A', 'x', '1', '12', '.', '+', '(', ')', '[
               '-', '_', '~', '%41', 'é', ',', ';', '=', '@', '!', '&', '#', '"']
 HOSTILE_TOKENS = ["'", '\\', '\\d', '\\b', "a'b", '\\n']
 CONV_CHOICES = [None, None, None, ('int', None), ('int', '2'), ('int', 'min=5, max=10'), ('int', '2, min=10, max=50'),
+                ('int', 'min=0'), ('int', 'max=0'), ('int', 'min=0, max=0'), ('int', '2, min=0'),
+                ('int', '2, min=0, max=0'), ('int', 'num_digits=2, max=0'), ('float', 'min=0'), ('float', 'max=0.0'),
+                ('float', 'min=-0.0'), ('float', 'min=0, max=0'),
                 ('float', None), ('float', 'min=1.5, max=2.5'), ('float', 'finite=False'), ('uuid', None),
                 ('dt', None), ('dt', '"%Y-%m-%d"'), ('veto', None)]
 
@@ -909,9 +927,6 @@ def run(rec):
                        'field values inside a multi-field segment are matched greedy/leftmost, one or more chars, '
                        'no newline inside a value; int/float/uuid/dt accept what the Python builtins accept',
                        'acceptance of a template is observed from the real router, never predicted']
-    extra = os.environ.get('VERIF_ASSUME_KNOWN')
-    if extra:
-        rec.known_keys |= set(k for k in extra.split(',') if k)
     rec.counters['keyed'] = 0
     complete = exhaustive(rec)
     rec.exhaustive = bool(complete)
@@ -937,7 +952,7 @@ def run(rec):
     rec.floor('class.swallow.3', 20)
     rec.floor('class.override', 10)
     rec.floor('add.compile_flag', 50)
-    for c in ('int', 'float', 'uuid', 'dt', 'veto', 'rest'):
+    for c in ('int', 'float', 'uuid', 'dt', 'veto', 'rest', 'int@0', 'float@0'):      # @0: a min/max bound of zero
         rec.floor('veto.' + c, 5)
     for k in REJECT_FLOORS:
         rec.floor('reject.' + k, 1)
@@ -948,9 +963,6 @@ def run(rec):
 
 def replay(rec, w):
     wit = w['witness']
-    extra = os.environ.get('VERIF_ASSUME_KNOWN')
-    if extra:
-        rec.known_keys |= set(k for k in extra.split(',') if k)
     rec.counters['keyed'] = 0
     world = World()
     for op in wit['ops']:
